@@ -481,7 +481,7 @@ fn class_list(b: &[u8], p: &Pool) -> R<Vec<Js>> {
 
 fn module(b: &[u8], p: &Pool) -> R<GModule> {
 	let mut r = Rd { b, i: 0 };
-	let mut m = GModule { name: p.module(r.u16()?)?, flags: r.u16()? & 0x9010, version: p.opt_utf8(r.u16()?)?, ..Default::default() };
+	let mut m = GModule { name: p.module(r.u16()?)?, flags: r.u16()? & 0x9020, version: p.opt_utf8(r.u16()?)?, ..Default::default() };
 	for _ in 0..r.u16()? { let n = p.module(r.u16()?)?; let f = r.u16()? & 0x9060; m.requires.push((n, f, p.opt_utf8(r.u16()?)?)); }
 	for which in 0..2 {
 		for _ in 0..r.u16()? {
